@@ -425,7 +425,7 @@ def rule_insert_after_terminated(ctx, rep, rule_id="R-INSERT-AFTER-TERMINATED"):
             rep.check(rule_id, fn.qname, fn.loc(b), ensured, f"insert-after:{src}",
                       f"`{unparse(b)[:70]}` places new lines after existing lines of `{src}` without making sure the line before them ends with a newline: "
                       "in a manifest without a final newline the new requirement is glued to the last one")
-    if n < 2:
+    if n < 1:
         raise AnalysisError(f"only {n} line insertions found in the line-surgery writers (requirements.txt, setup.cfg)")
 
 
